@@ -870,21 +870,42 @@ def _worker(inp, outp):
                         "trigger_event_types": list(fc.trigger_event_types)})
         return out
 
+    armed = [False]
+
     def on_alarm(_s, _f):
-        raise _Budget()
+        # repeating timer: SimpleEval.__del__ runs in the loop we want to leave, and an exception
+        # raised inside a __del__ is swallowed - one shot would be lost
+        if armed[0]:
+            raise _Budget()
 
     signal.signal(signal.SIGALRM, on_alarm)
 
-    def call(h, fcs):
-        signal.setitimer(signal.ITIMER_REAL, 3.0)
+    def call_inner(h, fcs):
+        armed[0] = True
+        signal.setitimer(signal.ITIMER_REAL, 3.0, 0.05)
         try:
             r = compute_next_steps(copy.deepcopy(h), fcs, None, [])
+            armed[0] = False
             return ["steps", canon_steps(r)]
         except _Budget:
+            armed[0] = False
             return ["hang"]
         except Exception as e:
+            armed[0] = False
             return ["raise", type(e).__name__ + ": " + str(e)[:120]]
+
+    def call(h, fcs):
+        try:
+            try:
+                return call_inner(h, fcs)
+            except _Budget:
+                armed[0] = False
+                return ["hang"]
+        except _Budget:
+            armed[0] = False
+            return ["hang"]
         finally:
+            armed[0] = False
             signal.setitimer(signal.ITIMER_REAL, 0)
 
     job = json.load(open(inp))
